@@ -18,7 +18,7 @@ MUST_RAISE = [
 FRINGE = ['empty-value-list', 'empty-text', 'empty-payload', 'single-row', 'width-1', 'origin-ref-0', 'name-255', 'ident-255',
           'text-20000', 'units-255', 'many-values-300', 'set-name-255', 'header-id-65', 'sul-id-60', 'empty-ident',
           'copy-number-255', 'dtime-1900', 'dtime-2155', 'nan-float-attr', 'inf-float-attr', 'record-length-20',
-          'frame-same-channel-name-twice']
+          'frame-same-channel-name-twice', 'window-to-idx-beyond', 'window-from-idx-negative']
 META = {
     'level': 'exploration',
     'rule': ('one evaluation = one invalid or fringe specification (one class of the catalogue injected into an otherwise random '
@@ -36,7 +36,7 @@ def cases(tier, seed):
     i = 0
     reps = 2 if tier == 'quick' else 25
     for c in MUST_RAISE + FRINGE:
-        for j in range(reps):
+        for j in range(reps * (4 if c.startswith('window-') else 1)):      # (window classes: several sources x chunk sizes)
             yield {'stratum': 'catalogue', 'index': i, 'kind': 'class', 'class': c}
             i += 1
 
@@ -214,6 +214,23 @@ def inject(sp, c, r):
     if c == 'window-empty':
         sp['write'].update({'from_idx': min(1, n - 1), 'to_idx': min(1, n - 1)})
         return 'write window'
+    if c in ('window-to-idx-beyond', 'window-from-idx-negative'):
+        # a row window that is not inside the data: refused, or exactly the rows Python slicing would select -- never
+        # rows that are not there
+        if n < 3:
+            for i in chans:
+                ops[i]['data']['shape'][0] = 4
+            n = 4
+        if c == 'window-to-idx-beyond':
+            sp['write'].update({'from_idx': r.choice([0, n - 1, n - 2]), 'to_idx': n + r.choice([1, 5])})
+        else:
+            sp['write'].update({'from_idx': -r.choice([1, 2]), 'to_idx': r.choice([None, n - 1, n])})
+        sp['write']['source'] = r.choice(['inline', 'dict', 'struct', 'hdf5'])
+        sp['write']['input_chunk_size'] = r.choice([None, None, 1, 2])
+        if sp['write']['source'] != 'inline':
+            for o in ops:
+                o.pop('force_inline', None)
+        return 'write window (%s source)' % sp['write']['source']
     if c == 'window-beyond':
         sp['write'].update({'from_idx': n + 3})
         return 'write window'
